@@ -643,3 +643,153 @@ func Delegate(fn *ssa.Function) *ssa.Function {
 	}
 	return fn
 }
+
+// EffCall reads a call through a forwarding helper: when the callee is a function of the module that the rules do not know by
+// name (not in KnownFuncs) and whose body makes exactly one call and returns that call's results (it may build function literals
+// and values for the arguments, nothing else), the call stands for the inner call with the helper's parameters replaced by the
+// outer arguments. Outer is the instruction in the analysed function (for dominance, path atoms and positions).
+type EffCall struct {
+	Outer *ssa.Call
+	Inner *ssa.Call
+	sub   map[ssa.Value]ssa.Value
+}
+
+// Effective follows forwarding helpers (at most three levels).
+func Effective(call *ssa.Call) EffCall {
+	e := EffCall{Outer: call, Inner: call, sub: map[ssa.Value]ssa.Value{}}
+	for depth := 0; depth < 3; depth++ {
+		cal := StaticCallee(&e.Inner.Call)
+		if cal == nil || cal.Pkg == nil || len(cal.Blocks) != 1 || KnownFuncs[cal.String()] || !strings.HasPrefix(cal.Pkg.Pkg.Path(), "github.com/b2broker/simplefix-go") {
+			return e
+		}
+		var inner *ssa.Call
+		var ret *ssa.Return
+		ok := true
+		for _, in := range cal.Blocks[0].Instrs {
+			switch x := in.(type) {
+			case *ssa.Call:
+				if inner != nil {
+					ok = false
+				}
+				inner = x
+			case *ssa.Return:
+				ret = x
+			case *ssa.MakeClosure, *ssa.Alloc, *ssa.FieldAddr, *ssa.UnOp, *ssa.DebugRef, *ssa.MakeInterface, *ssa.ChangeType, *ssa.Convert, *ssa.Extract, *ssa.IndexAddr, *ssa.Slice:
+			case *ssa.Store:
+				// only stores that initialise the cells of captured parameters
+				if _, isCell := x.Addr.(*ssa.Alloc); !isCell {
+					ok = false
+				}
+			default:
+				ok = false
+			}
+		}
+		if !ok || inner == nil || ret == nil {
+			return e
+		}
+		// the results returned are the inner call's (all of them, in order), or nothing is returned
+		switch len(ret.Results) {
+		case 0:
+		case 1:
+			if ret.Results[0] != ssa.Value(inner) {
+				return e
+			}
+		default:
+			for i, r := range ret.Results {
+				ex, isEx := r.(*ssa.Extract)
+				if !isEx || ex.Tuple != ssa.Value(inner) || ex.Index != i {
+					return e
+				}
+			}
+		}
+		for i, prm := range cal.Params {
+			if i < len(e.Inner.Call.Args) {
+				e.sub[prm] = e.Arg(i)
+			}
+		}
+		e.Inner = inner
+	}
+	return e
+}
+
+// Resolve reads a value of a forwarding helper in terms of the outer function: parameters are the outer arguments, a captured
+// parameter (free variable, or the cell it was spilled to) is that parameter.
+func (e EffCall) Resolve(v ssa.Value) ssa.Value {
+	for i := 0; i < 8; i++ {
+		switch x := v.(type) {
+		case *ssa.Parameter:
+			if a, ok := e.sub[x]; ok {
+				v = a
+				continue
+			}
+		case *ssa.FreeVar:
+			if b := FreeVarBinding(x); b != nil {
+				v = b
+				continue
+			}
+		case *ssa.UnOp:
+			if x.Op == token.MUL {
+				switch c := x.X.(type) {
+				case *ssa.FreeVar:
+					if b := FreeVarBinding(c); b != nil {
+						if al, isCell := b.(*ssa.Alloc); isCell {
+							if st := CellStores(al); len(st) == 1 {
+								v = st[0]
+								continue
+							}
+						}
+					}
+				case *ssa.Alloc:
+					if st := CellStores(c); len(st) == 1 {
+						if _, isP := st[0].(*ssa.Parameter); isP {
+							v = st[0]
+							continue
+						}
+					}
+				}
+			}
+		}
+		break
+	}
+	return v
+}
+
+// Arg is the i-th argument of the inner call in the outer function's terms.
+func (e EffCall) Arg(i int) ssa.Value { return e.Resolve(e.Inner.Call.Args[i]) }
+
+// DelegateTo: when fn's whole body is `return g(args...)` with g a function of the module that the rules do not know by name,
+// g holds fn's real body; the arguments (values of fn) are returned with it. Otherwise (fn, nil).
+func DelegateTo(fn *ssa.Function) (*ssa.Function, []ssa.Value) {
+	if fn == nil || len(fn.Blocks) != 1 {
+		return fn, nil
+	}
+	var call *ssa.Call
+	var ret *ssa.Return
+	for _, in := range fn.Blocks[0].Instrs {
+		switch x := in.(type) {
+		case *ssa.Call:
+			if call != nil {
+				return fn, nil
+			}
+			call = x
+		case *ssa.Return:
+			ret = x
+		case *ssa.FieldAddr, *ssa.UnOp, *ssa.DebugRef, *ssa.ChangeType, *ssa.Convert, *ssa.MakeInterface:
+		default:
+			return fn, nil
+		}
+	}
+	if call == nil || ret == nil || len(ret.Results) != 1 {
+		return fn, nil
+	}
+	if r := ret.Results[0]; r != ssa.Value(call) {
+		if ct, ok := r.(*ssa.ChangeType); !ok || ct.X != ssa.Value(call) {
+			return fn, nil
+		}
+	}
+	g := StaticCallee(&call.Call)
+	if g == nil || g.Pkg != fn.Pkg || len(g.Blocks) == 0 || KnownFuncs[g.String()] {
+		return fn, nil
+	}
+	return g, call.Call.Args
+}
